@@ -213,6 +213,12 @@ fn judge_tolmap(case: &Case, l: &mut Local) {
     for w in bps.windows(2) {
         qs.push(0.5 * (w[0] + w[1]));
     }
+    // the constant map is the table with a single zone: the same zone everywhere, also below any start
+    {
+        let cm = engeom::metrology::ConstantTolMap::new(zones[0]);
+        let ok = qs.iter().chain([f64::MIN, f64::MAX, -1e300].iter()).all(|x| cm.get(*x).map(|t| t.upper == zones[0].upper && t.lower == zones[0].lower).unwrap_or(false));
+        l.check("a constant tolerance map returns its zone for every x", "", ok, mk, String::new);
+    }
     for x in qs {
         l.eval();
         let got = map.get(x).map(|t| t.upper);
